@@ -184,7 +184,43 @@ def apply(fn, A, alg):
     raise ValueError(fn)
 
 
+NPF = {"exp": np.exp, "log": np.log, "sqrt": np.sqrt, "isqrt": lambda z: z**-0.5, "pow-1": lambda z: 1 / z, "pow2.5": lambda z: z**2.5}
+
+
+def run_large(case, seed):
+    """beyond the automatic switch (1001 x 1001 > 10^6 entries) Auto() hands the function to Lanczos (declared PSD) / Arnoldi: identity plus rank 3,
+    known only through its matmat, closed-form reference"""
+    from mc import large
+    _, fn, psd, algname = case
+    n = 1001
+    mm, U, W = large.lowrank_identity(seed, n, psd, "c09")
+    A = ops.LinearOperator(np.float64, (n, n), matmat=mm)
+    if psd:
+        A = cola.PSD(A)
+    g = P.rng(seed, "c09large", fn, psd)
+    X = g.standard_normal((n, 2))
+    vio = []
+    with warnings.catch_warnings():
+        warnings.simplefilter("ignore")
+        try:
+            fA = apply(fn, A, None if algname == "omitted" else L.Auto())
+            Y = np.asarray(fA @ X)
+            want = np.stack([large.f_apply(NPF[fn], U, W, X[:, j]) for j in range(2)], axis=1)
+            err = float(np.linalg.norm(Y - want) / np.linalg.norm(want)) if Y.shape == want.shape else np.inf
+            if not np.isfinite(err) or err > 1e-5:
+                vio.append({"key": f"C09|{fn}|large-operator|value|{algname}|{'psd' if psd else 'general'}", "what": f"{fn}(A) @ X with {algname} on a 1001 x 1001 "
+                            f"{'PSD' if psd else 'general'} operator: relative error {err:.2e}", "detail": {"rel_err": err, "result_type": type(fA).__name__}})
+            out = f"large:{type(fA).__name__.split('[')[0]}"
+        except Exception as e:
+            vio.append({"key": f"C09|{fn}|large-operator|exc:{type(e).__name__}|{algname}|{'psd' if psd else 'general'}", "what": f"{fn} on a 1001 x 1001 operator raised",
+                        "detail": {"msg": str(e)[:300]}})
+            out = "large:exc"
+    return {"transitions": 2, "outcome": out, "violations": vio}
+
+
 def run_case(case, seed):
+    if case[0] == "LARGE":
+        return run_large(case, seed)
     spec, fn, algname = case
     vio = []
     cls = spec_class(spec)
@@ -325,11 +361,16 @@ def cases(tier, seed):
                 if tier == "quick" and a in ("Lanczos_n3", "Arnoldi_n3") and fn not in ("exp", "sqrt", "pow-1", "pow2.5"):
                     continue
                 out.append([sp, fn, a])
+    for fn, psd in ((("exp", True), ("sqrt", False)) if tier == "quick" else [(f, q) for f in ("exp", "log", "sqrt", "isqrt", "pow-1", "pow2.5") for q in (True, False)]):
+        for a in (("omitted", ) if tier == "quick" else ("omitted", "Auto")):
+            out.append(["LARGE", fn, psd, a])
     _DESC.update({"operator_specs": len(S), "functions": FUNCS, "algorithms": ALGS, "states": len(out)})
     return out
 
 
 def case_signature(case):
+    if case[0] == "LARGE":
+        return ",".join(map(str, case))
     return f"{spec_class(case[0])},{case[1]},{case[2]}"
 
 
@@ -350,7 +391,7 @@ def describe(tier, seed):
         "bound": "operators with controlled spectrum: PSD-declared Q diag(l) Q^H, general V diag(l) V^-1 (real with complex-conjugate pairs, "
                  "complex), singular PSD (exp), Diagonal real/complex for n in " + ("{1,2,3,5}" if tier == "quick" else "{1,...,6,8,12,20}")
                  + "; Identity, ScalarMul, and every structural rule (BlockDiag with multiplicities, Transpose / Adjoint of a generic operator, "
-                   "KronSum, Kronecker, 2-3 factors) nested to depth 2; x 17 functions (exp, log, sqrt, isqrt, 11 powers, x^2+1, cos) x 8 "
+                   "KronSum, Kronecker, 2-3 factors) nested to depth 2; 1001 x 1001 identity-plus-rank-3 operators (PSD / general) beyond the automatic switch; x 17 functions (exp, log, sqrt, isqrt, 11 powers, x^2+1, cos) x 8 "
                    "algorithm settings x operands {1-D, 2 columns, complex 1-D, a zero column, a heterogeneous batch, float32 / complex64 and integer operands}",
         "alphabet": _DESC,
         "oracle": "f(A) x independent of the dtype an exactly representable operand arrives in (1e-10); f(A) x from the eigendecomposition of the reference (scipy cross-check in prepare()); sqrt twice = A; pow(-1) solves; integer "
